@@ -59,6 +59,11 @@ DIST_CLASSES = {
 }
 
 
+# taxon names (stems; a per-specification counter is appended) in the order of the leaf indices, and their dates
+TAXON_STEMS = [("A", "B", "C"), ("zebra", "Mouse", "human"), ("t2", "10", "T1"), ("10", "9", "b"), ("C", "a", "B")]
+TAXON_DATES = [(0.0, 0.5, 0.25), (0.25, 0.0, 0.5), (2000.5, 2000.0, 2000.25), (0.0, 0.0, 0.0)]
+
+
 class Spec:
     def __init__(self):
         self.top = []
@@ -220,15 +225,19 @@ class SpecGen:
             sp.features.add("ref")
         else:
             self.n += 1
-            names = [f"t{self.n}{c}" for c in "ABC"]
+            # the ORDER of the Taxon list is the order of the leaf indices: names whose list order is not their sorted /
+            # reverse-sorted / case-folded / numeric order, and a different date for every taxon
+            stems = rng.choice(TAXON_STEMS)
+            names = [f"{c}x{self.n}" for c in stems]
+            dates = rng.choice(TAXON_DATES)
             taxa = {}
             taxon_list = []
             any_bare = False
-            for nm in names:
+            for nm, date in zip(names, dates):
                 bare = ty == "UnRootedTreeModel" and rng.random() < 0.6   # what UnRootedTreeModel.json_factory emits
                 any_bare = any_bare or bare
                 t = self._shuffled([("id", nm), ("type", rng.choice(["Taxon", "Taxon", "torchtree.evolution.taxa.Taxon"]))]
-                                   + ([] if bare else [("attributes", {"date": 0.0})]))
+                                   + ([] if bare else [("attributes", {"date": date})]))
                 self._register(sp, t, "taxon", depth + 2, taxa)
                 taxon_list.append(t)
             taxa.update(self._shuffled([("id", self.fresh(sp, "taxa")),
@@ -466,13 +475,18 @@ def ancestors(sp, d):
 
 
 def set_id(sp, d, new):
-    """give the literal `d` another id; a Taxon's name also occurs in the newick strings of the trees using it"""
+    """give the literal `d` another id; a Taxon's name also occurs in the newick strings of the trees using it and in the
+    sequence records of the alignments over it"""
     old = d.get("id")
     d["id"] = new
     if str(d.get("type", "")).endswith("Taxon") and isinstance(old, str):
         for t in sp.lits:
             if isinstance(t.get("newick"), str):
                 t["newick"] = t["newick"].replace(old + ":", new + ":")
+            if isinstance(t.get("sequences"), list):
+                for q in t["sequences"]:
+                    if isinstance(q, dict) and q.get("taxon") == old:
+                        q["taxon"] = new
 
 
 def mutate(sp: Spec, rng, which=None):
